@@ -26,6 +26,10 @@ def op_family():
             for form in ('a %s b %s c', '(a %s b) %s c', 'a %s (b %s c)'):
                 k += 1
                 lines.append('  d%d : REAL := %s;' % (k, form % (o1, o2)))
+    # integer literals beyond 32 bits in every place a number can stand (EXPRESS integers are not bounded)
+    out['g_bigint'] = ('SCHEMA g_bigint;\nCONSTANT big : INTEGER := 4000000000; edge : INTEGER := 2147483648; small : INTEGER := 2147483647;\nEND_CONSTANT;\n'
+                       'TYPE txt = STRING (3000000000); END_TYPE;\nTYPE arr = ARRAY [1:5000000000] OF INTEGER; END_TYPE;\n'
+                       'ENTITY e; a : INTEGER; l : LIST [0:4294967296] OF REAL;\n DERIVE\n  d : INTEGER := a + 6000000000;\n WHERE\n  w1 : a < 8589934592;\nEND_ENTITY;\nEND_SCHEMA;\n')
     out['g_arith'] = 'SCHEMA g_arith;\nENTITY e; a : REAL; b : REAL; c : REAL;\n DERIVE\n%s\nEND_ENTITY;\nEND_SCHEMA;\n' % '\n'.join(lines)
     lines = []
     k = 0
@@ -289,6 +293,8 @@ def compare(src, out):
                     cls = 'parentheses:' + '_'.join(ctx[:3])
                 if x == ('op', '{') and y != ('op', '{'):
                     cls = 'interval-desugared'
+                if x and x[0] == 'int' and int(x[1]) > 2147483647:
+                    cls = 'integer-literal-beyond-32-bits'      # the scanner reads integer literals into an int
                 if x and y and x[0] == y[0] == 'id' and aliases.get(str(x[1]).lower()) == str(y[1]).lower():
                     cls = 'interfaced-alias->original-name'      # 'USE FROM s (y AS x)': the printer names the item by the name it has in s
                     cons = 'reference'
@@ -400,7 +406,9 @@ def main():
             bad = True
             d = r['reprint_diff']
             chk.outcome('reprint-differs')
-            chk.violation('%s/reprint-differs/%s/%s->%s' % (PID, name if name.startswith('g_') else fam_name, d[2], d[3]), '%s (exppp %s): second print differs: ...%s | ...%s' % (name, ' '.join(a), d[0], d[1]), case)
+            big = any(int(n) > 2147483647 for n in re.findall(r'(?<![\w.])\d+(?![\w.])', d[0]))
+            chk.violation(('%s/reprint-differs/%s/integer-literal-beyond-32-bits' % (PID, name if name.startswith('g_') else fam_name)) if big else
+                          '%s/reprint-differs/%s/%s->%s' % (PID, name if name.startswith('g_') else fam_name, d[2], d[3]), '%s (exppp %s): second print differs: ...%s | ...%s' % (name, ' '.join(a), d[0], d[1]), case)
         if not bad:
             chk.outcome('valid-equivalent-stable')
             chk.sample({'schema': name, 'args': a}, maxn=6)
